@@ -3,7 +3,7 @@ C17 — The recommendation report shows exactly the filter's result.
 
 Theorems about the STRUCTURED report of Model/Report.lean (`body`, `summary`, `stdoutSelection`),
 for every input (assessed list, hidden sets, records, strategies). The harness parses the real
-Markdown back into this structure.
+Markdown back into this structure. Last section: the TEXT of the Location cell (Model/ReportCell.lean).
 -/
 import Paroxy.Proofs.Report
 import Paroxy.Proofs.ReportOrder
